@@ -21,6 +21,7 @@ import numpy as np
 from harness.core import exc_class
 from harness.props.c08 import gen_tree, fresh_names
 from harness.props import c12_batch                      # part: genes_at_a_time > 1 (Model/SelectionK.v)
+from harness.props import c12_downsample                 # part: downsampled table, select_parent, np.argsort pops (tags 1260-1263)
 
 
 # ------------------------------------------------------------------ generators
@@ -687,6 +688,7 @@ def run(ctx):
         cleanup(d)
         done += m
     c12_batch.run_part(ctx)
+    c12_downsample.run_part(ctx)
 
 
 def replay(ctx, rec):
@@ -710,7 +712,11 @@ def _replay(ctx, rec):
     d.mkdir(exist_ok=True)
     tree, ref, stats = write_files(world, d, 0)
     before = len(ctx.violations)
-    if rec.get('kind') == 'stage':
+    if rec.get('kind') == 'downsample':
+        import sys
+        c12_downsample.function_part(ctx, sys.modules[__name__], [(world, tree, ref)])
+        c12_downsample.stage_part(ctx, sys.modules[__name__], [(world, tree, ref)])
+    elif rec.get('kind') == 'stage':
         stage_level(ctx, [(world, tree, ref)], n_configs=12)
     else:
         function_level(ctx, [(world, tree, ref)])
